@@ -231,7 +231,7 @@ func toU256(field sdk.Val) (*big.Int, error) {
 		return nil, fmt.Errorf("invalid u256 type %s", field.ValU256.Type)
 	}
 	num, succeed := new(big.Int).SetString(field.ValU256.Value, 10)
-	if !succeed {
+	if !succeed || num.Sign() < 0 || num.BitLen() > 256 {
 		return nil, fmt.Errorf("invalid u256 value %s", field.ValU256.Value)
 	}
 	return num, nil
@@ -268,7 +268,7 @@ func toUint8(field sdk.Val) (*uint8, error) {
 	if err != nil {
 		return nil, err
 	}
-	if value.Cmp(big.NewInt(math.MaxUint8)) < 0 {
+	if value.Cmp(big.NewInt(math.MaxUint8)) <= 0 {
 		v := uint8(value.Uint64())
 		return &v, nil
 	}
@@ -280,7 +280,7 @@ func toUint16(field sdk.Val) (*uint16, error) {
 	if err != nil {
 		return nil, err
 	}
-	if value.Cmp(big.NewInt(math.MaxUint16)) < 0 {
+	if value.Cmp(big.NewInt(math.MaxUint16)) <= 0 {
 		v := uint16(value.Uint64())
 		return &v, nil
 	}
